@@ -149,7 +149,22 @@ def check_history(case, ctx: Ctx):
             assert_stats(ctx, h, ref, "empty histogram")
         if kind == "fill":
             for v, w in zip(vals, wl):
-                ctx.call(what, h.fill, v) if ws is None else ctx.call(what, h.fill, v, w)
+                va, wa = v, w
+                vt, wt_ = stage.get("vtype"), stage.get("wtype")
+                # scalars as they come out of numpy arrays of a narrow type: the numbers are the same
+                if vt in ("np_int8", "np_int16") and float(v).is_integer() and abs(v) <= (127 if vt == "np_int8" else 32767):
+                    va = (np.int8 if vt == "np_int8" else np.int16)(int(v))
+                    ctx.label("fill_value_" + vt)
+                elif vt == "np_float32":
+                    va = np.float32(v)
+                    if not (float(edges[0]) <= float(va) <= float(edges[-1])):
+                        va = v
+                    v = float(va)
+                if ws is not None and wt_ in ("np_float32", "np_float16") and isinstance(w, float):
+                    wa = (np.float32 if wt_ == "np_float32" else np.float16)(w)
+                    w = float(wa)
+                    ctx.label("fill_weight_" + wt_)
+                ctx.call(what, h.fill, va) if ws is None else ctx.call(what, h.fill, va, wa)
                 ref.enter(v, w)
                 ref.median_known = False
             paths.add("fill")
@@ -310,6 +325,9 @@ def histories(draw, tier="quick"):
         n = draw(st.integers(0, 8 if kind == "fill" else 15))
         vals = draw(st.lists(val, min_size=n, max_size=n))
         st_ = {"kind": kind, "values": vals, "weights": draw(weights(n))}
+        if kind == "fill":
+            st_["vtype"] = draw(st.sampled_from([None, None, "np_int8", "np_int16", "np_float32"]))
+            st_["wtype"] = draw(st.sampled_from([None, None, "np_float32", "np_float16"]))
         if kind == "fill_n":
             st_["cuts"] = draw(st.lists(st.integers(0, 100), max_size=3))
         return st_
